@@ -156,6 +156,9 @@ pub fn simple_plan_tree(req: &Value) -> Value {
     let mut opts = PlanOptions::default();
     opts.no_acronyms = true;
     opts.coerce_separators = renamify_core::scanner::CoercionMode::Off;
+    if let Some(x) = req["exclude_matching_lines"].as_str() {
+        opts.exclude_matching_lines = Some(x.to_string());
+    }
     let r = with_cwd(&root, || renamify_core::scanner::create_simple_plan(&pattern, &replacement, vec![], &opts, is_regex));
     match r {
         Ok(plan) => {
